@@ -27,11 +27,6 @@ Definition gfm_disallowed_names : list bytes := Eval compute in
 Definition gfm_ws (b : byte) : bool :=
   beqb b x20 || beqb b x09 || beqb b x0a || beqb b x0b || beqb b x0c || beqb b x0d.
 
-(* the same without line tabulation and form feed (space, tab, LF, CR): used only to delimit the
-   known finding tagfilter_vt_ff *)
-Definition narrow_ws (b : byte) : bool :=
-  beqb b x20 || beqb b x09 || beqb b x0a || beqb b x0d.
-
 (* ASCII case folding of one byte (C locale tolower) *)
 Definition ascii_lower (b : byte) : byte :=
   if in_range 65 90 b then byte_of_N (bN b + 32) else b.
@@ -97,10 +92,6 @@ Definition disallowed_at : bytes -> bool := disallowed_at_ws gfm_ws.
 Definition gfm_filter : bytes -> bytes := gfm_filter_ws gfm_ws.
 Definition lt_escape_first : bytes -> bytes := lt_escape_first_ws gfm_ws.
 Definition any_disallowed : bytes -> bool := any_disallowed_ws gfm_ws.
-
-(* the narrow instances (known-finding classification only) *)
-Definition disallowed_at_narrow : bytes -> bool := disallowed_at_ws narrow_ws.
-Definition gfm_filter_narrow : bytes -> bytes := gfm_filter_ws narrow_ws.
 
 (* s with the byte at every position selected by P replaced by the entity, nothing else touched *)
 Definition subst_lt_at (P : nat -> bool) (s : bytes) : bytes :=
